@@ -258,7 +258,10 @@ pub fn check(case: &Case, env: &mut CaseEnv) -> Result<(), Failure> {
                 let got = out.rows_any();
                 match judge(&gq.q, &rows, &got) {
                     Ok((_, nontrivial)) => {
-                        if out.rows.is_some() && out.rows_from_columns() != got {
+                        // i64::MAX is the in-band NULL marker: an expression value that equals it reads as NULL in the
+                        // row view and as the number in the column view (outside the value domain, not judged)
+                        let norm = |rows: Vec<Vec<Cell>>| -> Vec<Vec<Cell>> { rows.into_iter().map(|r| r.into_iter().map(|c| if c == Cell::Int(i64::MAX) { Cell::Null } else { c }).collect()).collect() };
+                        if out.rows.is_some() && norm(out.rows_from_columns()) != norm(got.clone()) {
                             return Err(Failure::mismatch(format!("`{}`: row view and column view differ", sql)).tag("views_differ"));
                         }
                         if nontrivial {
